@@ -1,6 +1,9 @@
 package log
 
-import "context"
+import (
+	"context"
+	"time"
+)
 
 //verif:witness H_C01_fanout end
 //verif:witness H_C01_entry end
@@ -146,4 +149,121 @@ func H_C01_entry() {
 		vAssert(app.appends == 0, "disabled-entry-point-emits-nothing")
 	}
 	vReach("end")
+}
+
+//verif:witness H_C01_kinds end
+//verif:bound C01 all logger kinds by direct construction: sync / async (capacity 2) with and without a logger-level layout, two appender references (one open-ended, one explicit with arbitrary int32 bounds), console logger, file logger, rolling-file logger sync/async with and without the separate .wf file; one event with an arbitrary int32 level; delivery observed per appender (events or formatted lines) resp. per file
+
+// H_C01_kinds: the level gate holds for every logger kind and for both routes (events / formatted bytes).
+func H_C01_kinds() {
+	vOpt("loop", 400)
+	vOpt("preempt", 1)
+	vOpt("chancap", 2)
+	root := vFSRoot()
+	defer vFSCleanup()
+	dir := root + "/logs"
+	vFSMkdir(dir)
+	lay := &TextLayout{BaseLayout{FileLineLength: 48}}
+	sink := &vSink{}
+	saved := Stdout
+	Stdout = sink
+	defer func() { Stdout = saved }()
+	lmin, lmax, L := vInt32("lmin"), vInt32("lmax"), vInt32("L")
+	lr := LevelRange{MinLevel: Level{code: lmin, name: "A"}, MaxLevel: Level{code: lmax, name: "B"}}
+	base := LoggerBase{Name: "k", Level: lr}
+	withLayout := vChoose("loggerLayout", 2) == 1
+	if withLayout {
+		base.Layout = lay
+	}
+	var logger Logger
+	kind := vChoose("kind", 5)
+	var apps [2]*vRecAppender
+	var specs []vRefSpec
+	switch kind {
+	case 0, 1:
+		m0, m1, x1 := vInt32("min0"), vInt32("min1"), vInt32("max1")
+		specs = []vRefSpec{{min: m0}, {min: m1, max: x1, explicit: true}}
+		apps[0], apps[1] = &vRecAppender{}, &vRecAppender{}
+		refs := []*AppenderRef{
+			{Appender: apps[0], Level: LevelRange{MinLevel: Level{code: m0, name: "LO0"}, MaxLevel: MaxLevel}},
+			{Appender: apps[1], Level: LevelRange{MinLevel: Level{code: m1, name: "LO1"}, MaxLevel: Level{code: x1, name: "HI1"}}},
+		}
+		if kind == 0 {
+			l := &SyncLogger{LoggerBase: base}
+			l.AppenderRefs.AppenderRefs = refs
+			l.sortByLevel()
+			logger = l
+		} else {
+			l := &AsyncLogger{LoggerBase: base, BufferSize: 100, BufferFullPolicy: BufferFullPolicyBlock}
+			l.AppenderRefs.AppenderRefs = refs
+			l.sortByLevel()
+			logger = l
+		}
+	case 2:
+		logger = &ConsoleLogger{LoggerBase: base, ConsoleAppender: ConsoleAppender{Layout: lay}}
+	case 3:
+		logger = &FileLogger{LoggerBase: base, FileAppender: FileAppender{Layout: lay, FileDir: dir, FileName: "f.log"}}
+	default:
+		logger = &RollingFileLogger{LoggerBase: base, FileDir: dir, FileName: "r", Rotation: TimeRotation{Interval: time.Hour}, MaxAge: 168,
+			Separate: vChoose("separate", 2) == 1, AsyncWrite: vChoose("async", 2) == 1, BufferSize: 100, BufferFullPolicy: BufferFullPolicyBlock}
+	}
+	if err := logger.Start(); err != nil {
+		panic(err)
+	}
+	tag := &Tag{tag: "_t_x", logger: logger}
+	Record(context.Background(), Level{code: L, name: "EV"}, tag, 1, Msg("m"))
+	logger.Stop()
+	enabled := lmin <= L && L < lmax
+	switch kind {
+	case 0, 1:
+		for i := 0; i < 2; i++ {
+			got := apps[i].appends + apps[i].writes
+			if vSpecDelivered(lmin, lmax, L, specs, i) {
+				vAssert(got == 1, "enabled-appender-receives-exactly-once")
+			} else {
+				vAssert(got == 0, "disabled-appender-receives-nothing")
+			}
+		}
+	case 2:
+		vAssert(len(sink.writes) == b2n(enabled), "console-logger-emits-iff-enabled")
+	case 3:
+		c, _ := vFSRead(dir, "f.log")
+		vAssert(vCountLines(c) == b2n(enabled), "file-logger-emits-iff-enabled")
+	default:
+		rl := logger.(*RollingFileLogger)
+		normal, wf := 0, 0
+		for _, n := range vFSNames(dir) {
+			c, _ := vFSRead(dir, n)
+			if len(n) > 4 && n[:5] == "r.wf." {
+				wf += vCountLines(c)
+			} else {
+				normal += vCountLines(c)
+			}
+		}
+		if !rl.Separate {
+			vAssert(normal == b2n(enabled) && wf == 0, "rolling-logger-emits-iff-enabled")
+		} else {
+			// normal file serves [min,WARN), the .wf file [WARN,max)
+			vAssert(normal == b2n(enabled && L < 400), "normal-file-serves-below-warn")
+			vAssert(wf == b2n(enabled && L >= 400), "wf-file-serves-warn-and-above")
+		}
+	}
+	vReach("end")
+}
+
+func b2n(b bool) int {
+	if b {
+		return 1
+	}
+	return 0
+}
+
+func vCountLines(b []byte) int {
+	n := 0
+	for _, c := range b {
+		if c == '\n' {
+			n++
+		}
+	}
+	return n
 }
